@@ -819,6 +819,8 @@ class Interp:
                     return None
                 self.outside(f"super().{e.func.attr} not found", e)
             return self.call_function(target, selfv, args, kwargs, e)
+        if isinstance(e.func, ast.Name) and e.func.id == "cast" and len(e.args) == 2 and not env.lookup("cast")[0]:
+            return self.eval(e.args[1], env, module, cls)       # typing.cast(T, e) -> e  (T is not evaluated)
         f = self.eval(e.func, env, module, cls)
         args, kwargs = self.eval_args(e, env, module, cls)
         return self.call(f, args, kwargs, e)
